@@ -987,7 +987,9 @@ class TorControlProtocol(LineOnlyReceiver):
 
     def _is_end_line(self, line):
         "for FSM"
-        return line.strip() == '.'
+        # only a line that *is* "." ends a data block (Tor dot-stuffs
+        # the lines that start with one; " ." is data)
+        return line == '.'
 
     def _is_not_end_line(self, line):
         "for FSM"
